@@ -150,7 +150,7 @@ def execFn (name : String) (fields : List String) : M Unit := do
     let tx ← strArg text
     checkSer t tx
     let obs := parsePObs pres
-    cmpParse "parse(String())" (modelParse root (encode tx)) obs
+    -- the property monitor first (it judges the implementation), then the model comparison
     match obs with
     | .ok w =>
       if !jeqCanon w t then fail s!"SPEC C01: round trip changed the data: {jvalTok (canon w)} instead of {jvalTok (canon t)}"
@@ -160,6 +160,7 @@ def execFn (name : String) (fields : List String) : M Unit := do
       | _ => fail s!"SPEC C01: second round trip failed: {pres2}"
     | .err k l => fail s!"SPEC C01: ParseX(x.String()) failed: {k} {l}"
     | .other s => fail s!"SPEC C01: {s}"
+    cmpParse "parse(String())" (modelParse root (encode tx)) obs
   -- ---------------- parser
   | "parse", [root, hx, pres, expect] =>
     let bs ← bytesArg hx
